@@ -12,8 +12,20 @@
   (`supertypes_of`, `inheritance`, `all_supertypes_of`, `fits`, `find_reciprocal_associations`,
   `compute_entity_type`, `has_relationship`) by hand, and OS schedules are sampled by the harness, not
   enumerated: the property is claimed PARTIAL.
+
+  CALLERS THAT KEEP AN ANSWER (second half of the file; known finding GUARD, known/C14.json).  `supertypes_of` /
+  `inheritance` RETURN the DashMap read guard.  The theorems of the first half are about the programs the library
+  itself runs, which drop every guard before their next cache operation.  For callers of the public functions
+  (Hs.Model.NsCacheCaller: scripts of `ask` / `keep` / `release`, or arbitrary `Prog`s) the second half proves
+    - the counterexample: `C14_kept_answer_deadlocks_one_thread`, `C14_kept_answers_deadlock_two_threads`,
+      `C14_deadlock_free_fails_for_keeping_callers` (kernel-checked, two defs in one shard);
+    - the boundary, for ALL configurations and schedules: `C14_deadlock_free_disciplined` (drop before the next
+      query: deadlock free, the library's programs are of this kind), `C14_kept_answer_warm_ok` (a kept answer
+      followed by warm queries only never waits), `C14_kept_answer_answers_unchanged` (a kept answer never changes
+      an answer).
 -/
 import Hs.Lemmas.NsCacheSys
+import Hs.Lemmas.NsCacheKept
 import Hs.Lemmas.NsSpec
 namespace Hs.C14
 open Hs Hs.Ns Hs.NsCache
@@ -165,5 +177,295 @@ def exQss2 : List (List Query) := [[.sup ['d']], [.sup ['a'], .sup ['a']]]
 def exWait : State := run exCfg (init exCfg cold exQss2) [1, 1, 1, 1, 1, 0, 0, 1]
 example : blocked exCfg exWait 0 = true ∧ enabled exCfg exWait 0 = false ∧ enabled exCfg exWait 1 = true ∧
     blocked exCfg (step exCfg exWait 1) 0 = false := by decide +kernel
+
+/-! ## Callers that KEEP an answer (formal counterpart of known finding GUARD)
+
+`Namespace::supertypes_of` / `inheritance` return a read guard into the cache shard.  Everything above is about
+programs that drop it before their next cache operation (`Safe`); the library's own code is of that kind.  The
+system itself (`step`, `run`, `blocked`, `enabled`) runs ANY thread program: `initP c0 progs`. -/
+
+/-- THE DISCIPLINE, on arbitrary programs: every `get` / `contains_key` / `insert` is performed while NO answer is
+alive, i.e. every answer is dropped before the next query (`Safe false`, Hs.Lemmas.NsCacheSys).  `Prog` is
+higher-order (a continuation is a function of the cached vector), so on `Prog` this is an inductive predicate; on
+caller SCRIPTS it is the decidable `dropsBeforeNext` (`script_disciplined`). -/
+def DropsBeforeNext {α : Type} (p : Prog α) : Prop := Safe false p
+
+/-- Deadlock freedom for the thread programs of a class `P`: from any caches satisfying the invariant, under any
+schedule, for any number of threads - if some thread has not finished, some thread can take a step. -/
+def DeadlockFreeFor (P : Cfg → Prog (List Ans) → Prop) : Prop :=
+  ∀ (cfg : Cfg) (progs : List (Prog (List Ans))) (c0 : Caches), Inv cfg c0 → (∀ p ∈ progs, P cfg p) →
+    ∀ (sched : List Nat) (t : Nat), finished (run cfg (initP c0 progs) sched) t = false →
+      ∃ u, enabled cfg (run cfg (initP c0 progs) sched) u = true
+
+/-- the programs callers of the public API can write: scripts of `ask` / `keep` / `release` -/
+def IsCaller (cfg : Cfg) (p : Prog (List Ans)) : Prop := ∃ sc : Script, p = callerP cfg sc 0
+
+/-! ### (a) the discipline gives deadlock freedom, and the library obeys it -/
+
+/-- **Positive boundary (a).**  Threads that drop every answer before their next query never deadlock: ALL
+configurations, shard functions, thread counts, schedules, and (not even needed) all initial caches. -/
+theorem C14_deadlock_free_disciplined : DeadlockFreeFor (fun _ p => DropsBeforeNext p) :=
+  fun _ _ c0 _ hP sched t hf => sinv_some_enabled (sinv_run sched _ (sinv_initP c0 hP)) t hf
+
+/-- the same without the hypothesis on the caches, with the guard facts: no reachable state is a deadlock, a thread
+holds at most one guard, a guard holder is enabled -/
+theorem C14_disciplined_never_deadlocks (cfg : Cfg) (progs : List (Prog (List Ans))) (c0 : Caches)
+    (hP : ∀ p ∈ progs, DropsBeforeNext p) (sched : List Nat) :
+    let s := run cfg (initP c0 progs) sched
+    ¬ Deadlock cfg s ∧
+    ∀ (t : Nat) (th : Thread), s.thr[t]? = some th → th.held.length ≤ 1 ∧ (th.held ≠ [] → enabled cfg s t = true) := by
+  have hs : SInv (run cfg (initP c0 progs) sched) := sinv_run sched _ (sinv_initP c0 hP)
+  refine ⟨fun hd => ?_, fun t th ht => ⟨(hs t th ht).2, fun hh => sinv_holder_enabled hs ht hh⟩⟩
+  obtain ⟨⟨t, hf⟩, _⟩ := deadlock_stuck hd
+  obtain ⟨u, hu⟩ := sinv_some_enabled (cfg := cfg) hs t hf
+  rw [stuck_no_enabled (deadlock_stuck hd) u] at hu
+  cases hu
+
+/-- every program the library itself runs obeys the discipline: `supertypes_of` + read, `all_supertypes_of`,
+`inheritance` + read, `fits`, `reflect` (with the `compute_entity_type` loop), `Reflection::fits` … -/
+theorem library_disciplined (cfg : Cfg) :
+    (∀ k, DropsBeforeNext (supG cfg.ns.defs k)) ∧
+    (∀ k, DropsBeforeNext (allSupP cfg.fuel cfg.ns.defs k)) ∧
+    (∀ k, DropsBeforeNext (inhG cfg.fuel cfg.ns k)) ∧
+    (∀ a b, DropsBeforeNext (fitsP cfg.fuel cfg.ns a b)) ∧
+    (∀ r, DropsBeforeNext (reflectP cfg.fuel cfg.ns r)) ∧
+    (∀ r b, DropsBeforeNext (reflFitsP cfg.fuel cfg.ns r b)) ∧
+    (∀ q, DropsBeforeNext (queryP cfg q)) ∧
+    (∀ qs, DropsBeforeNext (runQs cfg qs)) :=
+  ⟨safe_supG _, safe_allSupP _ _, safe_inhG _ _, safe_fitsP _ _, safe_reflectP _ _, safe_reflFitsP _ _,
+   safe_queryP cfg, safe_runQs cfg⟩
+
+/-- … and so does every caller script that passes the decidable test `dropsBeforeNext`: each `keep` is followed at
+once by its `release` (or ends the script) -/
+theorem script_disciplined (cfg : Cfg) (sc : Script) (h : dropsBeforeNext sc = true) :
+    DropsBeforeNext (callerP cfg sc 0) := safe_callerP cfg sc h
+
+theorem init_eq_initP (cfg : Cfg) (c0 : Caches) (qss : List (List Query)) :
+    init cfg c0 qss = initP c0 (qss.map (runQs cfg)) := by
+  simp [init, initP, List.map_map, Function.comp_def]
+
+/-- `deadlock_free` above is the instance "threads run the library's programs" - for ANY initial caches -/
+theorem C14_deadlock_free_library (cfg : Cfg) (qss : List (List Query)) (c0 : Caches) (sched : List Nat) (t : Nat)
+    (hf : finished (run cfg (init cfg c0 qss) sched) t = false) :
+    ∃ u, enabled cfg (run cfg (init cfg c0 qss) sched) u = true := by
+  rw [init_eq_initP] at hf ⊢
+  refine sinv_some_enabled (sinv_run sched _ (sinv_initP c0 ?_)) t hf
+  intro p hp
+  obtain ⟨qs, _, rfl⟩ := List.mem_map.1 hp
+  exact safe_runQs cfg qs
+
+/-! ### the counterexample: two defs in one shard -/
+
+/-- five defs; two DashMap shards, the shard of a symbol is the parity of its length: `x`, `y`, `m` share shard 1,
+`xx`, `yy` share shard 0 -/
+def kRows : List Row :=
+  [ { name := some ['m'], isRaw := [] },
+    { name := some ['x'], isRaw := [some ['m']] },
+    { name := some ['y'], isRaw := [some ['m']] },
+    { name := some ['x', 'x'], isRaw := [some ['m']] },
+    { name := some ['y', 'y'], isRaw := [some ['m']] } ]
+def kCfg : Cfg := { ns := make kRows, fuel := fuelFor (make kRows).defs, shard := fun k => k.length % 2 }
+
+/-- `let g = ns.supertypes_of(^x); ns.supertypes_of(^y);` -/
+def kSelf : Script := [.keep .sup ['x'], .ask (.sup ['y'])]
+
+theorem kSelf_is_keepThen : callerP kCfg kSelf 0 = keepThen kCfg .sup ['x'] (.sup ['y']) := rfl
+
+/-- after six steps (miss, absent, insert, get = the kept answer; miss, absent) the thread waits for the write lock
+of the shard its own kept answer read-locks -/
+theorem kSelf_stuck : Stuck kCfg (run kCfg (initC kCfg cold [kSelf]) (List.replicate 6 0)) :=
+  stuckB_sound (by decide +kernel)
+
+/-- **GUARD, one thread.**  A caller that keeps `supertypes_of(x)` alive and asks the cold `supertypes_of(y)`,
+`y` in the shard of `x`, never finishes under ANY schedule; after its sixth step the state is a deadlock. -/
+theorem C14_kept_answer_deadlocks_one_thread :
+    ∃ (cfg : Cfg) (c : CacheId) (k : Name) (q : Query),
+      (∀ sched : List Nat, finished (run cfg (initP cold [keepThen cfg c k q]) sched) 0 = false) ∧
+      (∃ pre : List Nat, Deadlock cfg (run cfg (initP cold [keepThen cfg c k q]) pre)) := by
+  refine ⟨kCfg, .sup, ['x'], .sup ['y'], fun sched => ?_, List.replicate 6 0, stuck_deadlock kSelf_stuck⟩
+  exact never_finishes_single (s := initC kCfg cold [kSelf]) rfl 6 (by decide +kernel) kSelf_stuck sched
+
+/-- the same with `inheritance`: `let g = ns.inheritance(^x); ns.inheritance(^y);` is stuck after 23 steps (the
+`supertypes_of` inserts of the computation pass - another DashMap -, the `inheritance` insert does not) -/
+def kSelfInh : Script := [.keep .inh ['x'], .ask (.inh ['y'])]
+theorem kSelfInh_stuck : Stuck kCfg (run kCfg (initC kCfg cold [kSelfInh]) (List.replicate 23 0)) :=
+  stuckB_sound (by decide +kernel)
+example (sched : List Nat) : finished (run kCfg (initC kCfg cold [kSelfInh]) sched) 0 = false :=
+  never_finishes_single rfl 23 (by decide +kernel) kSelfInh_stuck sched
+
+/-- `let g = ns.supertypes_of(^x); ns.supertypes_of(^yy);` and `let g = ns.supertypes_of(^xx); ns.supertypes_of(^y);`
+- each keeps an answer in the shard the other's cold query must write -/
+def kT0 : Script := [.keep .sup ['x'], .ask (.sup ['y', 'y'])]
+def kT1 : Script := [.keep .sup ['x', 'x'], .ask (.sup ['y'])]
+/-- thread 0 obtains and keeps its answer (4 steps), thread 1 likewise, then each runs into its insert -/
+def kPre : List Nat := [0, 0, 0, 0, 1, 1, 1, 1, 0, 0, 1, 1]
+
+theorem kMutual_stuck : Stuck kCfg (run kCfg (initC kCfg cold [kT0, kT1]) kPre) :=
+  stuckB_sound (by decide +kernel)
+
+/-- **GUARD, two threads.**  Neither caller blocks itself (alone, or one after the other, both complete with the
+cache-free answers), but after the schedule prefix `kPre` both wait for the other's kept answer for ever: under
+every extension of the schedule both stay blocked and unfinished. -/
+theorem C14_kept_answers_deadlock_two_threads :
+    ∃ (cfg : Cfg) (sc0 sc1 : Script) (pre : List Nat),
+      (∃ n, finished (run cfg (initC cfg cold [sc0]) (List.replicate n 0)) 0 = true) ∧
+      (∃ n, finished (run cfg (initC cfg cold [sc1]) (List.replicate n 0)) 0 = true) ∧
+      (∃ sched, finished (run cfg (initC cfg cold [sc0, sc1]) sched) 0 = true ∧
+                finished (run cfg (initC cfg cold [sc0, sc1]) sched) 1 = true) ∧
+      Deadlock cfg (run cfg (initC cfg cold [sc0, sc1]) pre) ∧
+      ∀ ext : List Nat,
+        let s := run cfg (run cfg (initC cfg cold [sc0, sc1]) pre) ext
+        finished s 0 = false ∧ finished s 1 = false ∧ blocked cfg s 0 = true ∧ blocked cfg s 1 = true := by
+  refine ⟨kCfg, kT0, kT1, kPre, ⟨12, by decide +kernel⟩, ⟨12, by decide +kernel⟩,
+    ⟨List.replicate 12 0 ++ List.replicate 12 1, by decide +kernel⟩, stuck_deadlock kMutual_stuck, fun ext => ?_⟩
+  simp only
+  rw [stuck_run kMutual_stuck ext]
+  decide +kernel
+
+/-- **Deadlock freedom does NOT extend to callers of the public API that keep an answer** … -/
+theorem C14_deadlock_free_fails_for_keeping_callers : ¬ DeadlockFreeFor IsCaller := by
+  intro h
+  obtain ⟨u, hu⟩ := h kCfg [callerP kCfg kSelf 0] cold cold_inv
+    (fun p hp => ⟨kSelf, by simpa using hp⟩) (List.replicate 6 0) 0 (by decide +kernel)
+  have := stuck_no_enabled kSelf_stuck u
+  simp only [initC, List.map_cons, List.map_nil] at this
+  rw [this] at hu
+  cases hu
+
+/-- … hence not to arbitrary thread programs -/
+theorem C14_deadlock_free_fails_for_arbitrary_programs : ¬ DeadlockFreeFor (fun _ _ => True) :=
+  fun h => C14_deadlock_free_fails_for_keeping_callers (fun cfg progs c0 h0 _ => h cfg progs c0 h0 (fun _ _ => trivial))
+
+/-- the counterexample scripts fail the decidable test, the repaired callers (`release` before the next query)
+pass it and complete -/
+example : dropsBeforeNext kSelf = false ∧ dropsBeforeNext kT0 = false ∧ dropsBeforeNext kT1 = false := by decide
+def kSelfOk : Script := [.keep .sup ['x'], .release, .ask (.sup ['y'])]
+example : dropsBeforeNext kSelfOk = true := by decide
+example : let s := run kCfg (initC kCfg cold [kSelfOk]) (List.replicate 12 0)
+    finished s 0 = true ∧ answers s 0 = some (scriptAns kCfg kSelfOk) := by decide +kernel
+example := C14_deadlock_free_disciplined kCfg [callerP kCfg kSelfOk 0] cold cold_inv
+  (fun p hp => by rw [List.mem_singleton.1 hp]; exact script_disciplined kCfg kSelfOk (by decide))
+
+/-! ### (b) a kept answer followed by warm queries only -/
+
+/-- **Positive boundary (b).**  ANY configuration, ANY caller scripts in the other threads (keeping what they like),
+ANY schedule prefix `pre`: if in the state reached the remaining program of thread `t` is WARM - every key it will
+ask for is cached (`allHit`: the dry run meets hits only, no `insert` is reached) - then, whatever answers `t` or
+anybody else keeps alive and whatever the rest `ext` of the schedule, `t` is never blocked, and it has finished as
+soon as it was scheduled `hitLen` times. -/
+theorem C14_kept_answer_warm_ok (cfg : Cfg) (scripts : List Script) (c0 : Caches) (h0 : Inv cfg c0)
+    (pre : List Nat) (t : Nat) (th : Thread)
+    (ht : (run cfg (initC cfg c0 scripts) pre).thr[t]? = some th)
+    (hw : allHit (run cfg (initC cfg c0 scripts) pre).c th.prog = true) (ext : List Nat) :
+    blocked cfg (run cfg (run cfg (initC cfg c0 scripts) pre) ext) t = false ∧
+    (hitLen (run cfg (initC cfg c0 scripts) pre).c th.prog ≤ ext.count t →
+      finished (run cfg (run cfg (initC cfg c0 scripts) pre) ext) t = true) :=
+  warm_never_blocked (ainv_run pre _ (ainv_initC h0 scripts)) ht hw ext
+
+/-- the same for arbitrary thread programs that insert only correct values (`Good`, any post-conditions) -/
+theorem C14_kept_answer_warm_ok_progs (cfg : Cfg) (post : Nat → List Ans → Prop) (progs : List (Prog (List Ans)))
+    (c0 : Caches) (h0 : Inv cfg c0) (hg : ∀ t p, progs[t]? = some p → Good cfg (post t) c0 p)
+    (pre : List Nat) (t : Nat) (th : Thread)
+    (ht : (run cfg (initP c0 progs) pre).thr[t]? = some th)
+    (hw : allHit (run cfg (initP c0 progs) pre).c th.prog = true) (ext : List Nat) :
+    blocked cfg (run cfg (run cfg (initP c0 progs) pre) ext) t = false ∧
+    (hitLen (run cfg (initP c0 progs) pre).c th.prog ≤ ext.count t →
+      finished (run cfg (run cfg (initP c0 progs) pre) ext) t = true) :=
+  warm_never_blocked (ainv_run pre _ (ainv_initP h0 hg)) ht hw ext
+
+/-- `supertypes_of(k)` / `inheritance(k)` as a query -/
+def directQ : CacheId → Name → Query
+  | .sup, k => .sup k
+  | .inh, k => .inh k
+
+/-- (b) for the very shape of GUARD, `let g = ns.<c>(k); ns.<c'>(k')`, with BOTH keys cached: whatever the shards,
+the caller never waits and is done after four steps of its own (hit, hit, drop, end of scope) -/
+theorem C14_keepThen_warm_ok (cfg : Cfg) (c0 : Caches) (h0 : Inv cfg c0) (c c' : CacheId) (k k' : Name)
+    (hk : (look c k c0).isSome = true) (hk' : (look c' k' c0).isSome = true) (sched : List Nat) :
+    blocked cfg (run cfg (initP c0 [keepThen cfg c k (directQ c' k')]) sched) 0 = false ∧
+    (4 ≤ sched.count 0 → finished (run cfg (initP c0 [keepThen cfg c k (directQ c' k')]) sched) 0 = true) := by
+  obtain ⟨v, hv⟩ := Option.isSome_iff_exists.1 hk
+  obtain ⟨v', hv'⟩ := Option.isSome_iff_exists.1 hk'
+  have hw : allHit c0 (keepThen cfg c k (directQ c' k')) = true := by
+    cases c <;> cases c' <;>
+      simp [keepThen, callerP, keepP, supK, inhK, directQ, queryP, supG, inhG, Prog.bind, allHit, hitRun, hv, hv', dropN]
+  have hl : hitLen c0 (keepThen cfg c k (directQ c' k')) = 4 := by
+    cases c <;> cases c' <;>
+      simp [keepThen, callerP, keepP, supK, inhK, directQ, queryP, supG, inhG, Prog.bind, hitLen, hv, hv', dropN]
+  have h : blocked cfg (run cfg (initP c0 [keepThen cfg c k (directQ c' k')]) sched) 0 = false ∧
+      (hitLen c0 (keepThen cfg c k (directQ c' k')) ≤ sched.count 0 →
+        finished (run cfg (initP c0 [keepThen cfg c k (directQ c' k')]) sched) 0 = true) :=
+    C14_kept_answer_warm_ok cfg [[.keep c k, .ask (directQ c' k')]] c0 h0 [] 0
+      { prog := keepThen cfg c k (directQ c' k'), held := [] } rfl hw sched
+  rw [hl] at h
+  exact h
+
+/-- non-vacuity: the one-thread counterexample `kSelf` (`x`, `y` in one shard) started on caches in which both keys
+are present - the caches a thread asking `supertypes_of(x)`, `supertypes_of(y)` leaves behind - never waits -/
+def kWarmCaches : Caches := (run kCfg (init kCfg cold [[.sup ['x'], .sup ['y']]]) (List.replicate 10 0)).c
+theorem kWarmCaches_inv : Inv kCfg kWarmCaches :=
+  cache_inv_reachable (qss := [[.sup ['x'], .sup ['y']]]) cold cold_inv _
+example (sched : List Nat) := C14_keepThen_warm_ok kCfg kWarmCaches kWarmCaches_inv .sup .sup ['x'] ['y']
+  (by decide +kernel) (by decide +kernel) sched
+
+/-- non-vacuity: `all_supertypes_of(y)` (cold: inserts `y`, `m`), then `let g = supertypes_of(x)` (cold, same
+shard 1, kept), then `all_supertypes_of(y)` and `supertypes_of(m)` again: after the first 14 steps the thread HOLDS
+a guard on shard 1 and its remaining program is warm; it completes with the cache-free answers.  The same caller
+with a cold last query (`yy`, other shard: fine; `y` not asked before: stuck) is the counterexample above. -/
+def kWarm : Script := [.ask (.allSup ['y']), .keep .sup ['x'], .ask (.allSup ['y']), .ask (.sup ['m'])]
+def kWarmAt : State := run kCfg (initC kCfg cold [kWarm]) (List.replicate 14 0)
+/-- guards held by thread `t`, is its remaining program warm, length of the warm run -/
+def warmAt (s : State) (t : Nat) : Option (List (CacheId × Name) × Bool × Nat) :=
+  (s.thr[t]?).map fun th => (th.held, allHit s.c th.prog, hitLen s.c th.prog)
+example : warmAt kWarmAt 0 = some ([(.sup, ['x'])], true, 7) := by decide +kernel
+/-- the theorem applied: whatever the rest of the schedule, the thread never waits -/
+example (ext : List Nat) : blocked kCfg (run kCfg kWarmAt ext) 0 = false := by
+  have hw0 : warmAt kWarmAt 0 = some ([(.sup, ['x'])], true, 7) := by decide +kernel
+  cases ht : kWarmAt.thr[0]? with
+  | none => simp [warmAt, ht] at hw0
+  | some th =>
+    have hw : allHit kWarmAt.c th.prog = true := by
+      simp only [warmAt, ht, Option.map_some, Option.some.injEq, Prod.mk.injEq] at hw0
+      exact hw0.2.1
+    exact (C14_kept_answer_warm_ok kCfg [kWarm] cold cold_inv (List.replicate 14 0) 0 th ht hw ext).1
+example : let s := run kCfg kWarmAt (List.replicate 7 0)
+    finished s 0 = true ∧ answers s 0 = some (scriptAns kCfg kWarm) := by decide +kernel
+
+/-! ### (c) a kept answer never changes an answer -/
+
+/-- **Positive boundary (c).**  History and schedule independence hold for keeping callers whenever they
+terminate: in ANY configuration, from ANY caches satisfying the invariant, under ANY schedule, a caller that has
+finished got, for each `ask` and each `keep` in order, the answer of the cache-free function - whatever it or the
+other threads kept alive meanwhile. -/
+theorem C14_kept_answer_answers_unchanged (cfg : Cfg) (scripts : List Script) (c0 : Caches) (h0 : Inv cfg c0)
+    (sched : List Nat) (t : Nat) (th : Thread) (as : List Ans)
+    (ht : (run cfg (initC cfg c0 scripts) sched).thr[t]? = some th) (hp : th.prog = .ret as) :
+    as = scriptAns cfg (scripts.getD t []) :=
+  ainv_answer (ainv_run sched _ (ainv_initC h0 scripts)) ht hp
+
+/-- … and the caches of every state such callers reach hold only values of the cache-free functions, only such
+values are inserted -/
+theorem C14_kept_answer_cache_inv (cfg : Cfg) (scripts : List Script) (c0 : Caches) (h0 : Inv cfg c0)
+    (sched : List Nat) :
+    let s := run cfg (initC cfg c0 scripts) sched
+    (∀ c k v, look c k s.c = some v → Correct cfg c k v) ∧
+    (∀ (t : Nat) (th : Thread) (c : CacheId) (k : Name) (v : V) (cont : Prog (List Ans)),
+      s.thr[t]? = some th → th.prog = .ins c k v cont → Correct cfg c k v) := by
+  have h := ainv_run sched _ (ainv_initC h0 scripts)
+  refine ⟨h.inv, fun t th c k v cont ht hp => ?_⟩
+  have hg := h.good t th ht
+  rw [hp] at hg
+  cases hg with
+  | ins hc _ => exact hc
+
+/-- a script of `ask`s is a query list of the first half: the statements above extend `answer_eq_pure` -/
+theorem scripts_extend_queries (cfg : Cfg) (c0 : Caches) (qss : List (List Query)) :
+    initC cfg c0 (qss.map (List.map .ask)) = init cfg c0 qss := by
+  simp [initC, init_eq_initP, List.map_map, Function.comp_def, callerP_ask]
+
+/-- non-vacuity of (c): the two keeping callers of the two-thread counterexample under the schedule "thread 0
+first" both finish, with the cache-free answers -/
+example : let s := run kCfg (initC kCfg cold [kT0, kT1]) (List.replicate 12 0 ++ List.replicate 12 1)
+    answers s 0 = some (scriptAns kCfg kT0) ∧ answers s 1 = some (scriptAns kCfg kT1) := by decide +kernel
 
 end Hs.C14
